@@ -338,7 +338,7 @@ fn run<T: ArgParse + Show>(args: &[&'static UnixStr], helps: &[(Value, String)])
                 let whole = e.to_string();
                 let lvl = helps.iter().find(|(_, h)| *h == help).map(|(l, _)| l.clone());
                 json!({"r": "err", "cause": cause, "cause_len": e.cause.len(), "lvl": lvl,
-                       "help_len": help.len(), "display_ok": whole == format!("{help}{cause}")})
+                       "help_len": help.len(), "display_ok": whole.contains(&help) && whole.contains(&cause)})
             }
         }
     });
